@@ -1,2 +1,169 @@
--- property theorems for C13 (number <-> text); see Strtod/Model.lean
-import JanetModel.Strtod.Model
+/-
+C13 — number ⇄ text conversion.  Property theorems only (model: Strtod/Model.lean; lemmas: Strtod/Lemmas.lean,
+Strtod/ScanLemmas.lean, Strtod/Extract.lean).
+-/
+import JanetModel.Strtod.ScanLemmas
+
+namespace JanetModel.Props.C13
+open JanetModel.Strtod JanetModel.Gen.Strtod
+
+/-! ### scaling by the radix power is exact -/
+
+/-- ★ positive exponent `e`: the chain of `bignat_muladd`s (by base⁴, base², base) yields exactly `mant * base^e`,
+    for every literal the scanner accepts. -/
+theorem mul_chain_exact (str : List Nat) (base0 : Nat) (hb : base0 ≤ 36) (p : Parsed)
+    (h : parseNumber str base0 = some p) (e : Nat) :
+    (scale p.mant p.base (e : Int)).1.val = p.mant.val * p.base ^ e := by
+  obtain ⟨hi, h1, h36⟩ := parseNumber_inv str base0 hb p h
+  rw [scale_pos_eq]
+  exact (scalePos_facts p.mant p.base e h1 h36 hi).2
+
+/-- ★ negative exponent `-a`: after the pre-shift by `shamt = 5 + a/4` digits, the whole sequence of truncating
+    `bignat_div`s (by base⁴, base², base) equals ONE floor division by `base^a` — on the part of the digit array above
+    `digits[0]` (`upper` = value / 2^62).  `digits[0]` and `first_digit` are excluded because the C loop leaves the
+    *remainder* in `digits[0]` (see `bignat_div` in the model); `bignat_extract` never reads them on this branch
+    (`neg_branch_at_least_4_digits`). -/
+theorem div_chain_exact (str : List Nat) (base0 : Nat) (hb : base0 ≤ 36) (p : Parsed)
+    (h : parseNumber str base0 = some p) (hnz : ¬ (p.mant.digits.length = 0 ∧ p.mant.first = 0)) (a : Nat) (ha : 0 < a) :
+    upper (scale p.mant p.base (-(a : Int))).1 =
+      p.mant.val * bigBase ^ (shamtBase + a / shamtDiv - 2) / p.base ^ a := by
+  obtain ⟨hi, h1, h36⟩ := parseNumber_inv str base0 hb p h
+  rw [scale_neg_eq _ _ _ ha]
+  refine (scaleNeg_facts p.mant p.base a h1 h36 hi ?_).2.2
+  intro hd hf; exact hnz ⟨by simp [hd], hf⟩
+
+/-- the scaled mantissa on the negative branch keeps at least 93 + 31·(a/4) − log2(base^a) ≥ 62 bits above `digits[0]`,
+    hence occupies at least four array digits: `bignat_extract` reads `digits[n-1], digits[n-2], digits[n-3]`, all
+    above the unreliable `digits[0]`. -/
+theorem neg_branch_at_least_4_digits (str : List Nat) (base0 : Nat) (hb : base0 ≤ 36) (p : Parsed)
+    (h : parseNumber str base0 = some p) (hnz : ¬ (p.mant.digits.length = 0 ∧ p.mant.first = 0)) (a : Nat) (ha : 0 < a) :
+    4 ≤ (scale p.mant p.base (-(a : Int))).1.digits.length ∧
+    bigBase ^ 2 ≤ upper (scale p.mant p.base (-(a : Int))).1 := by
+  obtain ⟨hi, h1, h36⟩ := parseNumber_inv str base0 hb p h
+  rw [scale_neg_eq _ _ _ ha]
+  have hnz' : p.mant.digits = [] → p.mant.first ≠ 0 := by intro hd hf; exact hnz ⟨by simp [hd], hf⟩
+  have hv := val_pos_of_nonzero p.mant hi hnz
+  exact ⟨scaleNeg_length _ _ _ h1 h36 hi hnz' hv, scaleNeg_upper_ge _ _ _ h1 h36 hi hnz' hv⟩
+
+/-! ### `clz` is never applied to 0 -/
+
+/-- ★ for every accepted literal whose mantissa is not zero (zero returns before scaling), the BigNat handed to
+    `bignat_extract` has a non-zero most significant digit — for every exponent. -/
+theorem msd_nonzero (str : List Nat) (base0 : Nat) (hb : base0 ≤ 36) (p : Parsed)
+    (h : parseNumber str base0 = some p) (hnz : ¬ (p.mant.digits.length = 0 ∧ p.mant.first = 0)) (ex : Int)
+    (d1 : Nat) (below : List Nat) (hd : (scale p.mant p.base ex).1.digits.reverse = d1 :: below) : d1 ≠ 0 := by
+  obtain ⟨hi, h1, h36⟩ := parseNumber_inv str base0 hb p h
+  have ht : TopNZ (scale p.mant p.base ex).1.digits := by
+    by_cases hneg : ex < 0
+    · obtain ⟨a, rfl⟩ : ∃ a : Nat, ex = -(a : Int) := ⟨(-ex).toNat, by omega⟩
+      have ha : 0 < a := by omega
+      rw [scale_neg_eq _ _ _ ha]
+      have hnz' : p.mant.digits = [] → p.mant.first ≠ 0 := by intro hd hf; exact hnz ⟨by simp [hd], hf⟩
+      exact scaleNeg_topnz _ _ _ h1 h36 hi hnz' (val_pos_of_nonzero p.mant hi hnz)
+    · obtain ⟨e, rfl⟩ : ∃ e : Nat, ex = (e : Int) := ⟨ex.toNat, by omega⟩
+      rw [scale_pos_eq]
+      exact (scalePos_facts p.mant p.base e h1 h36 hi).1.topnz
+  have hrev : (scale p.mant p.base ex).1.digits = below.reverse ++ [d1] := by
+    have := congrArg List.reverse hd
+    simpa using this
+  rw [hrev, TopNZ_append_singleton] at ht
+  exact ht
+
+/-! ### the size estimate used by the short-circuits of `convert` -/
+
+/-- ★ the mantissa part of `exp2_approx` (`n * approxPerDigit + 16`, multiplier read from the source) is within
+    (−15, +16] of log2 of the mantissa:  2^(est−16) ≤ mant < 2^(est+15).
+    This is the obligation that fails for the multiplier 32 (digits hold 31 bits): the estimate then overshoots by `n`
+    and long finite literals are returned as infinity. -/
+theorem mant_estimate_sound (x : BigNat) (hi : MantInv x) (hnz : ¬ (x.digits.length = 0 ∧ x.first = 0)) :
+    2 ^ (x.digits.length * approxPerDigit + approxBias) ≤ x.val * 2 ^ 16 ∧
+    x.val * 2 ^ 16 < 2 ^ (x.digits.length * approxPerDigit + approxBias + 31) := by
+  have hapd : approxPerDigit = 31 := by decide
+  have hbias : approxBias = 16 := by decide
+  have hB : ∀ k, bigBase ^ k = 2 ^ (k * 31) := by
+    intro k
+    have : bigBase = 2 ^ 31 := by decide
+    rw [this, ← pow_mul, Nat.mul_comm]
+  have hall : AllLt (x.first :: x.digits) := AllLt_cons.2 ⟨hi.first_lt, hi.allLt⟩
+  have hup := digitsVal_lt hall
+  rw [← val_def, hB] at hup
+  have hlo : 2 ^ (x.digits.length * 31) ≤ x.val := by
+    cases hd : x.digits with
+    | nil => simpa using val_pos_of_nonzero x hi hnz
+    | cons d r =>
+      have := topnz_val_ge (ds := x.first :: x.digits) (by simp) (by rw [hd, TopNZ_cons_cons, ← hd]; exact hi.topnz)
+      rw [← val_def, hB, hd] at this
+      simpa using this
+  rw [hapd, hbias]
+  constructor
+  · rw [pow_add]; exact Nat.mul_le_mul_right _ hlo
+  · have e : x.digits.length * 31 + 16 + 31 = (x.digits.length + 1) * 31 + 16 := by ring
+    rw [e, pow_add]
+    simp only [List.length_cons] at hup
+    exact Nat.mul_lt_mul_of_pos_right hup (by positivity)
+
+/-! ### 64-bit integer text -/
+
+/-- ★ `janet_scan_uint64` accepts exactly the syntactically valid, non-negative-signed literals whose denoted integer
+    (`intSpec`: the same scan with unbounded accumulation) is ≤ 2^64−1, and returns that integer. -/
+theorem scan_uint64_exact_or_rejected (str : List Nat) :
+    scanUint64 str =
+      match intSpec str with
+      | some (v, false) => if v ≤ 18446744073709551615 then some v else none
+      | _ => none := by
+  unfold scanUint64
+  rw [scanUint64Core_eq]
+  cases hs : intSpec str with
+  | none => rfl
+  | some q =>
+    obtain ⟨v, neg⟩ := q
+    by_cases hv : v ≤ u64Max
+    · cases neg <;> simp [hv]
+    · cases neg <;> simp [hv]
+
+/-- ★ `janet_scan_int64` accepts exactly the valid literals whose signed value lies in [−2^63, 2^63−1], and returns it. -/
+theorem scan_int64_exact_or_rejected (str : List Nat) :
+    scanInt64 str =
+      match intSpec str with
+      | some (v, neg) =>
+        let x : Int := if neg then -(v : Int) else (v : Int)
+        if -9223372036854775808 ≤ x ∧ x ≤ 9223372036854775807 then some x else none
+      | none => none := by
+  unfold scanInt64
+  rw [scanUint64Core_eq]
+  cases hs : intSpec str with
+  | none => rfl
+  | some q =>
+    obtain ⟨v, neg⟩ := q
+    simp only [u64Max, i64Max]
+    by_cases hv : v ≤ 18446744073709551615
+    · rw [if_pos hv]
+      cases neg
+      · simp only [Bool.false_eq_true, false_and, if_false, Bool.not_false, true_and]
+        by_cases h2 : v ≤ 9223372036854775807
+        · rw [if_pos h2, if_pos (by omega)]
+        · rw [if_neg h2, if_neg (by omega)]
+      · simp only [true_and, if_true]
+        by_cases h2 : v ≤ 18446744073709551615 / 2 + 1
+        · rw [if_pos h2]
+          by_cases h3 : v > 9223372036854775807
+          · rw [if_pos h3, if_pos (by omega)]; congr 1; omega
+          · rw [if_neg h3, if_pos (by omega)]
+        · rw [if_neg h2]
+          simp only [Bool.not_true, Bool.false_eq_true, false_and, if_false]
+          rw [if_neg (by omega)]
+    · rw [if_neg hv]
+      cases neg
+      · simp only [Bool.false_eq_true, if_false]; rw [if_neg (by omega)]
+      · simp only [if_true]; rw [if_neg (by omega)]
+
+/-! ### non-vacuity -/
+
+/-- the hypotheses are satisfiable by non-trivial literals: "16r1f.8&-3", "-1.25e-7", "9223372036854775808" -/
+example : (parseNumber [49, 54, 114, 49, 102, 46, 56, 38, 45, 51] 0).isSome = true := by decide +kernel
+example : (parseNumber [45, 49, 46, 50, 53, 101, 45, 55] 0).map (fun p => (p.mant.val, p.base, p.ex)) = some (125, 10, -9) := by decide +kernel
+example : scanInt64 [45, 57, 50, 50, 51, 51, 55, 50, 48, 51, 54, 56, 53, 52, 55, 55, 53, 56, 48, 56] = some (-9223372036854775808) := by decide +kernel
+example : scanInt64 [57, 50, 50, 51, 51, 55, 50, 48, 51, 54, 56, 53, 52, 55, 55, 53, 56, 48, 56] = none := by decide +kernel
+example : scanUint64 [49, 56, 52, 52, 54, 55, 52, 52, 48, 55, 51, 55, 48, 57, 53, 53, 49, 54, 49, 54] = none := by decide +kernel
+
+end JanetModel.Props.C13
